@@ -510,9 +510,14 @@ def r6_counter_walk(ctx):
             zero = [a for a in args if a[0] == "c" and a[1] == 0]
             diff = [a for a in args if a[0] == "bin" and a[1].startswith("Sub") and strip(a[2]) == START and strip(a[3]) == CLOCK]
             ok = len(zero) == 1 and len(diff) == 1
-    ctx.ob(rid, "window-lower-bound", ok, "" if ok else "the walk continues while %s (expected index >= max(0, start - half-move clock))" % (show(cond) if cond else "?"), ctx.where(f), sample={"condition": show(cond) if cond else None})
+    recognised = cond is not None and (cond[2] == ("local", l) or cond[3] == ("local", l))
+    if not recognised:
+        ctx.lost(rid, "the condition under which the walk over the history continues (a comparison of the index with a bound)")
+    else:
+        ctx.ob(rid, "window-lower-bound", ok, "" if ok else "the walk continues while %s (expected index >= max(0, start - half-move clock))" % (show(cond) if cond else "?"), ctx.where(f), sample={"condition": show(cond) if cond else None})
     # comparison with the entry at start
     cmp_ok = False
+    cmp_seen = False
     for b in sorted(cfg.reach):
         t = f["blocks"][b]["term"]
         if t["k"] == "switch" and cfg.in_loop(b):
@@ -523,9 +528,16 @@ def r6_counter_walk(ctx):
                     for x in leaves(side):
                         if x[0] == "call" and x[1].endswith("::index"):
                             idxs.append(strip(x[2][1]))
+                if idxs:
+                    cmp_seen = True
                 if ("local", l) in idxs and START in idxs:
                     cmp_ok = True
-    ctx.ob(rid, "compares-with-the-current-entry", cmp_ok, "" if cmp_ok else "the loop does not compare history[index] with history[start]", ctx.where(f))
+    if not cmp_ok and not cmp_seen:
+        # no `history[..] == history[..]` test in the loop itself (it sits in a closure, a helper, an iterator
+        # adaptor): not read by this rule
+        ctx.lost(rid, "the comparison of two history entries inside the walk")
+    else:
+        ctx.ob(rid, "compares-with-the-current-entry", cmp_ok, "" if cmp_ok else "the loop does not compare history[index] with history[start]", ctx.where(f))
     # count starts at 1
     cnt_ok = False
     for l2, defs in ex.defs.items():
